@@ -46,7 +46,9 @@ def segments(outside_abs: str):
     return ['', '.', '..', 'k', 'a', 'new', ' ', '~', 'link_out', 'link_in', 'dangling', 'dangling_in',
             'file_link', outside_abs, 'nul\0x', 'f', '.gitignore', 'K', 'link_prefix', 'link_prefix_dir',
             # compatibility characters that Unicode normalisation (NFKC) turns into '..' / '.'
-            '\uff0e\uff0e', '\u2025']
+            '\uff0e\uff0e', '\u2025',
+            # symlinks that lead back to the storage directory itself
+            'self_link', 'self_link_abs']
 
 
 def extra_strings():
@@ -114,6 +116,8 @@ def build_sandbox(root: Path, layout: str):
         os.symlink('../../outside/sub', st / 'k' / 'dir_link')      # a directory symlink inside a key directory
         os.symlink('../outside/secret', st / 'file_link')
         sib = 'real_storage2' if layout == 'via-symlink' else 'storage_backup'
+        os.symlink('.', st / 'self_link')
+        os.symlink(os.path.realpath(st), st / 'self_link_abs')
         os.symlink(f'../{sib}/K2', st / 'link_prefix')
         os.symlink(f'../{sib}', st / 'link_prefix_dir')
     return st
